@@ -80,6 +80,10 @@ ApplyEv(t) ==
   IF t.out3 # want THEN "REJECT Apply3" ELSE
   IF t.out4 # [i \in DOMAIN want |-> want[i] \o <<t.n>>] THEN "REJECT Apply4" ELSE
   IF t.call # want THEN "REJECT ApplyCall" ELSE
+  \* homogeneous 4-vectors that are not normalised: (w x, w) is the point x, (x, 0) a direction (the translation does not act)
+  IF t.out4w2 # [i \in DOMAIN want |-> [j \in 1..4 |-> IF j = 4 THEN 2 * t.n ELSE 2 * want[i][j]]] THEN "REJECT Apply4Weighted" ELSE
+  IF t.out4w3 # [i \in DOMAIN want |-> [j \in 1..4 |-> IF j = 4 THEN 3 * t.n ELSE 3 * want[i][j]]] THEN "REJECT Apply4Weighted" ELSE
+  IF t.out4d # [i \in DOMAIN want |-> MatVec(op.r, t.pts[i]) \o <<0>>] THEN "REJECT Apply4Direction" ELSE
   IF t.hascart /\ t.cart # want THEN "REJECT ApplyCartesian" ELSE
   "ACCEPT"
 
